@@ -109,17 +109,21 @@ theorem selected_in_range (s : Sys F) (pkt : Bytes) (now sel : Nat) (h : selecte
 
 theorem selectPreRegistration_in_range (ls : List (FLink F)) (last : Option Nat) (now sel : Nat)
     (h : selectPreRegistration ls last now = some sel) : sel < ls.length := by
+  have hf : ∀ k, List.findIdx? (fun (c : FLink F) => !c.isTimedOut now) ls = some k → k < ls.length :=
+    fun k hk => (List.findIdx?_eq_some_iff_getElem.1 hk).1
   unfold selectPreRegistration at h
   dsimp only at h
-  split at h
-  · rename_i hre
-    subst h
-    simp only at hre
-    cases hl : ls[sel]? with
-    | none => simp [hl] at hre
-    | some c => exact (List.getElem?_eq_some_iff.1 hl).1
-  · obtain ⟨hlt, -⟩ := List.findIdx?_eq_some_iff_getElem.1 h
-    exact hlt
+  cases last with
+  | none => simp only [Bool.false_eq_true, if_false] at h; exact hf _ h
+  | some k =>
+    dsimp only at h
+    cases hl : ls[k]? with
+    | none => simp only [hl, Bool.false_eq_true, if_false] at h; exact hf _ h
+    | some c =>
+      simp only [hl] at h
+      split at h
+      · cases h; exact (List.getElem?_eq_some_iff.1 hl).1
+      · exact hf _ h
 
 theorem target_in_range (s : Sys F) (pkt : Bytes) (now sel : Nat) (h : target s pkt now = some sel) :
     sel < s.links.length := by
@@ -173,14 +177,11 @@ theorem handleSrtPacket_eq (s : Sys F) (pkt : Bytes) (now : Nat) (hne : pkt.isEm
   simp only [Bool.false_eq_true, if_false]
   cases hreg : s.reg.hasConnected
   · simp only [Bool.not_false, if_true, Bool.false_eq_true, if_false]
-    split <;> rfl
+    cases hsel : selectPreRegistration s.links s.lastSelected now <;> rfl
   · simp only [Bool.not_true, Bool.false_eq_true, if_false, if_true]
     unfold selected routeTo
     dsimp only
-    split <;> rename_i hsel <;> rw [hsel]
-    · dsimp only
-      split <;> rfl
-    · rfl
+    rfl
 
 /-- `routeTo` link by link.  For every link `l1` at index `i` of the state the routing ran on: its
 successor, the `LinkFx` with what was appended (`clientApp`), the bytes put on its socket (`wireOf` its
@@ -193,7 +194,9 @@ theorem routeTo_links (s1 : Sys F) (sel : Nat) (pkt : Bytes) (seq : Option Nat) 
     ∀ i l1, s1.links[i]? = some l1 → ∃ l', r.1.links[i]? = some l' ∧
       LinkFx (FailedSendReset s1.failNext l1 l') (clientApp (pkt, seq, now) probes sel i l1) l1 l'
         (wireOf l1.core.connId r.2.wire) ∧
-      ProbeFx (probes = true ∧ probeCalled sel i l1) l1 l' := by
+      ProbeFx (probes = true ∧ probeCalled sel i l1) l1 l' ∧
+      (clientApp (pkt, seq, now) probes sel i l1 = [] →
+        l'.queue = l1.queue ∧ wireOf l1.core.connId r.2.wire = []) := by
   obtain ⟨lsel, hlsel⟩ : ∃ l, s1.links[sel]? = some l := ⟨s1.links[sel], List.getElem?_eq_getElem hsel⟩
   obtain ⟨l', b, f1, f2, f3, f4, f5, f6, f7, f8, f9⟩ := forwardVia_spec s1 sel pkt seq now lsel hlsel
   have hids2 : ids (forwardVia s1 sel pkt seq now).1.links = ids s1.links := by
@@ -209,15 +212,18 @@ theorem routeTo_links (s1 : Sys F) (sel : Nat) (pkt : Bytes) (seq : Option Nat) 
     by_cases hi : i = sel
     · subst hi
       rw [hlsel] at hl1; cases hl1
-      refine ⟨l', by simp [hlsel], ?_, ?_⟩
+      refine ⟨l', by simp [hlsel], ?_, ?_, ?_⟩
       · rw [wireOf_tag_self]
         simpa [clientApp] using f3
       · unfold ProbeFx; rw [if_neg (by simp)]; exact f4
-    · refine ⟨l1, by simp [hi, hl1], ?_, ?_⟩
+      · intro h; simp [clientApp] at h
+    · refine ⟨l1, by simp [hi, hl1], ?_, ?_, ?_⟩
       · rw [wireOf_tag_other _ _ _ (ids_ne hnd hlsel hl1 (Ne.symm hi))]
         simp only [clientApp, if_neg hi, Bool.false_eq_true, if_false]
         exact LinkFx.refl _ l1
       · unfold ProbeFx; rw [if_neg (by simp)]; exact Or.inl rfl
+      · intro _
+        exact ⟨rfl, wireOf_tag_other _ _ _ (ids_ne hnd hlsel hl1 (Ne.symm hi))⟩
   · -- probe pass over the links left by the forward
     simp only [if_true]
     obtain ⟨hp, hfn⟩ := stallProbesGo_par pkt seq now sel s1.failNext
@@ -230,24 +236,166 @@ theorem routeTo_links (s1 : Sys F) (sel : Nat) (pkt : Bytes) (seq : Option Nat) 
       have h2 : (forwardVia s1 i pkt seq now).1.links[i]? = some l' := by
         rw [f1, setAt_getElem?]; simp [hlsel]
       obtain ⟨l'', b2, g1, g2, g3⟩ := hp.get i l' h2
-      obtain ⟨g2a, -, -⟩ := g2
+      obtain ⟨g2a, -, -, -⟩ := g2
       obtain ⟨rfl, rfl⟩ := g2a (fun hc => hc.1 (by omega))
-      refine ⟨l'', g1, ?_, ?_⟩
+      refine ⟨l'', g1, ?_, ?_, ?_⟩
       · rw [f2, wireOf_append, wireOf_tag_self, ← f3.1, g3 (by rw [hids2]; exact hnd), List.append_nil]
         simpa [clientApp] using f3
       · unfold ProbeFx; rw [if_neg (fun hc => hc.2.1 rfl)]; exact f4
+      · intro h; simp [clientApp] at h
     · have h2 : (forwardVia s1 sel pkt seq now).1.links[i]? = some l1 := by
         rw [f1, setAt_getElem?]; simp [hi, hl1]
       obtain ⟨l'', b2, g1, g2, g3⟩ := hp.get i l1 h2
-      obtain ⟨-, g2b, g2c⟩ := g2
-      rw [Nat.zero_add] at g2b g2c
-      refine ⟨l'', g1, ?_, ?_⟩
+      obtain ⟨-, g2d, g2b, g2c⟩ := g2
+      rw [Nat.zero_add] at g2b g2c g2d
+      have hw : wireOf l1.core.connId ((forwardVia s1 sel pkt seq now).2.wire ++
+          (stallProbesGo pkt seq now sel (forwardVia s1 sel pkt seq now).1.links 0
+            (forwardVia s1 sel pkt seq now).1.failNext).2.1) = b2 := by
+        rw [f2, wireOf_append, wireOf_tag_other _ _ _ (ids_ne hnd hlsel hl1 (Ne.symm hi)),
+          g3 (by rw [hids2]; exact hnd), List.nil_append]
+      refine ⟨l'', g1, ?_, ?_, ?_⟩
+      rotate_left 2
+      · intro h
+        simp only [clientApp, if_neg hi, if_true] at h
+        rw [hw]; exact g2d h
       · rw [f2, wireOf_append, wireOf_tag_other _ _ _ (ids_ne hnd hlsel hl1 (Ne.symm hi)),
           g3 (by rw [hids2]; exact hnd), List.nil_append]
         simpa [clientApp, hi] using g2b
       · unfold ProbeFx at g2c ⊢
         by_cases hc : probeCalled sel i l1
-        · rw [if_pos hc] at g2c; rw [if_pos ⟨rfl, hc⟩]; exact g2c
+        · rw [if_pos hc] at g2c; rw [if_pos ⟨trivial, hc⟩]; exact g2c
         · rw [if_neg hc] at g2c; rw [if_neg (fun h => hc h.2)]; exact g2c
+
+/-! ## The client event as a whole -/
+
+/-- The queue item made from a client datagram received at `now`. -/
+def clientItem (pkt : Bytes) (now : Nat) : QItem := (pkt, Codec.getSrtSequenceNumberS pkt, now)
+
+/-- What the client datagram `pkt` appends to link `i`'s queue: nothing for an empty datagram or when
+no link is chosen; otherwise the unique copy on the chosen link, and — only once registered and only
+for data packets — a probe copy on every other link that is stall-gated and connected (after this
+call's selection pass) and whose 1-in-100 counter fires. -/
+def appendedClient (s : Sys F) (pkt : Bytes) (now i : Nat) : List QItem :=
+  if pkt.isEmpty then [] else
+  match target s pkt now, (routedLinks s now)[i]? with
+  | some sel, some l1 =>
+    clientApp (clientItem pkt now) (s.reg.hasConnected && (Codec.getSrtSequenceNumberS pkt).isSome) sel i l1
+  | _, _ => []
+
+/-- `stall_probe_due` is consulted for link `i` by this client datagram: registered, data packet,
+routed to some OTHER link, link `i` stall-gated and connected after the selection pass.  These are the
+"data packets routed while link `i` was gated". -/
+def probeConsulted (s : Sys F) (pkt : Bytes) (now i : Nat) : Bool :=
+  !pkt.isEmpty && s.reg.hasConnected && (Codec.getSrtSequenceNumberS pkt).isSome &&
+  match target s pkt now, (routedLinks s now)[i]? with
+  | some sel, some l1 => decide (probeCalled sel i l1)
+  | _, _ => false
+
+theorem client_links (s : Sys F) (pkt : Bytes) (now : Nat) (hnd : (ids s.links).Nodup) :
+    let r := handleSrtPacket s pkt now
+    r.1.links.length = s.links.length ∧ r.1.reg = s.reg ∧ r.1.cfg = s.cfg ∧
+    (∀ y ∈ r.1.failNext, y ∈ s.failNext) ∧ r.2.client = [] ∧
+    (∀ sel, pkt.isEmpty = false → target s pkt now = some sel → r.1.lastSelected = some sel) ∧
+    (pkt.isEmpty = true ∨ target s pkt now = none → r.2.wire = [] ∧ r.1.lastSelected = s.lastSelected) ∧
+    ∀ i l, s.links[i]? = some l → ∃ l', r.1.links[i]? = some l' ∧
+      LinkFx (FailedSendReset s.failNext l l') (appendedClient s pkt now i) l l'
+        (wireOf l.core.connId r.2.wire) ∧
+      ProbeFx (probeConsulted s pkt now i = true) l l' ∧
+      (appendedClient s pkt now i = [] → l'.queue = l.queue ∧ wireOf l.core.connId r.2.wire = []) := by
+  dsimp only
+  cases hne : pkt.isEmpty
+  case true =>
+    have hr : handleSrtPacket s pkt now = (s, {}) := by unfold handleSrtPacket; rw [if_pos hne]
+    rw [hr]
+    refine ⟨rfl, rfl, rfl, fun _ h => h, rfl, (fun _ h => by cases h), fun _ => ⟨rfl, rfl⟩, ?_⟩
+    intro i l hl
+    have happ : appendedClient s pkt now i = [] := by unfold appendedClient; rw [if_pos hne]
+    have hpc : ¬ (probeConsulted s pkt now i = true) := by unfold probeConsulted; simp [hne]
+    refine ⟨l, hl, ?_, ?_, fun _ => ⟨rfl, rfl⟩⟩
+    · rw [happ]; exact LinkFx.refl _ l
+    · unfold ProbeFx; rw [if_neg hpc]; exact Or.inl rfl
+  case false =>
+    rw [handleSrtPacket_eq s pkt now hne]
+    cases hreg : s.reg.hasConnected
+    case false =>
+      simp only [Bool.false_eq_true, if_false]
+      have htgt : target s pkt now = selectPreRegistration s.links s.lastSelected now := by
+        unfold target; simp [hreg]
+      have hrl : routedLinks s now = s.links := by unfold routedLinks; simp [hreg]
+      have hpc : ∀ i, ¬ (probeConsulted s pkt now i = true) := by
+        intro i; unfold probeConsulted; simp [hreg]
+      rw [htgt]
+      cases hsel : selectPreRegistration s.links s.lastSelected now with
+      | none =>
+        dsimp only
+        refine ⟨rfl, rfl, rfl, fun _ h => h, rfl, (fun _ _ h => by cases h), fun _ => ⟨rfl, rfl⟩, ?_⟩
+        intro i l hl
+        have happ : appendedClient s pkt now i = [] := by
+          unfold appendedClient; rw [htgt, hsel]; simp
+        refine ⟨l, hl, ?_, ?_, fun _ => ⟨rfl, rfl⟩⟩
+        · rw [happ]; exact LinkFx.refl _ l
+        · unfold ProbeFx; rw [if_neg (hpc i)]; exact Or.inl rfl
+      | some sel =>
+        dsimp only
+        have hrange := selectPreRegistration_in_range _ _ _ _ hsel
+        obtain ⟨r1, r2, r3, r4, r5, r6, r7⟩ :=
+          routeTo_links s sel pkt (Codec.getSrtSequenceNumberS pkt) now false hrange hnd
+        refine ⟨r1, r3, r4, r5, r6, (fun sel' _ h => by cases h; exact r2), (fun h => by simp at h), ?_⟩
+        intro i l hl
+        obtain ⟨l', g1, g2, g3, g4⟩ := r7 i l hl
+        have happ : appendedClient s pkt now i =
+            clientApp (pkt, Codec.getSrtSequenceNumberS pkt, now) false sel i l := by
+          unfold appendedClient; rw [htgt, hsel, hrl, hl]; simp [hne, hreg, clientItem]
+        refine ⟨l', g1, ?_, ?_, ?_⟩
+        · rw [happ]; exact g2
+        · unfold ProbeFx at g3 ⊢
+          rw [if_neg (by simp)] at g3; rw [if_neg (hpc i)]; exact g3
+        · rw [happ]; exact g4
+    case true =>
+      simp only [if_true]
+      have htgt : target s pkt now = selected s pkt now := by unfold target; simp [hreg]
+      have hrl : routedLinks s now = (runSelect s now).1.links := by unfold routedLinks; simp [hreg]
+      rw [htgt]
+      cases hsel : selected s pkt now with
+      | none =>
+        dsimp only
+        refine ⟨runSelect_length s now, rfl, rfl, fun _ h => h, rfl, (fun _ _ h => by cases h),
+          fun _ => ⟨rfl, rfl⟩, ?_⟩
+        intro i l hl
+        obtain ⟨sl, h1⟩ := runSelect_getElem? s now i l hl
+        have happ : appendedClient s pkt now i = [] := by
+          unfold appendedClient; rw [htgt, hsel]; simp
+        have hpc : ¬ (probeConsulted s pkt now i = true) := by
+          unfold probeConsulted; rw [htgt, hsel]; simp
+        refine ⟨_, h1, ?_, ?_, fun _ => ⟨rfl, rfl⟩⟩
+        · rw [happ]; exact ⟨rfl, Or.inl ⟨by simp, rfl, Or.inl rfl⟩⟩
+        · unfold ProbeFx; rw [if_neg hpc]; exact Or.inl rfl
+      | some sel =>
+        dsimp only
+        have hrange : sel < (runSelect s now).1.links.length := by
+          rw [runSelect_length]; exact selected_in_range s pkt now sel hsel
+        have hnd1 : (ids (runSelect s now).1.links).Nodup := by rw [runSelect_ids]; exact hnd
+        obtain ⟨r1, r2, r3, r4, r5, r6, r7⟩ :=
+          routeTo_links (runSelect s now).1 sel pkt (Codec.getSrtSequenceNumberS pkt) now
+            (Codec.getSrtSequenceNumberS pkt).isSome hrange hnd1
+        refine ⟨by rw [r1, runSelect_length], r3, r4, r5, r6, (fun sel' _ h => by cases h; exact r2),
+          (fun h => by simp at h), ?_⟩
+        intro i l hl
+        obtain ⟨sl, h1⟩ := runSelect_getElem? s now i l hl
+        obtain ⟨l', g1, g2, g3, g4⟩ := r7 i _ h1
+        have happ : appendedClient s pkt now i =
+            clientApp (pkt, Codec.getSrtSequenceNumberS pkt, now) (Codec.getSrtSequenceNumberS pkt).isSome
+              sel i (l.absorb sl) := by
+          unfold appendedClient; rw [htgt, hsel, hrl, h1]; simp [hne, hreg, clientItem]
+        have hpc : (probeConsulted s pkt now i = true) ↔
+            ((Codec.getSrtSequenceNumberS pkt).isSome = true ∧ probeCalled sel i (l.absorb sl)) := by
+          unfold probeConsulted; rw [htgt, hsel, hrl, h1]; simp [hne, hreg]
+        refine ⟨l', g1, ?_, ?_, ?_⟩
+        · rw [happ]; exact g2
+        · unfold ProbeFx at g3 ⊢
+          by_cases hc : (Codec.getSrtSequenceNumberS pkt).isSome = true ∧ probeCalled sel i (l.absorb sl)
+          · rw [if_pos hc] at g3; rw [if_pos (hpc.2 hc)]; exact g3
+          · rw [if_neg hc] at g3; rw [if_neg (fun h => hc (hpc.1 h))]; exact g3
+        · rw [happ]; exact g4
 
 end Srtla.Sys
